@@ -119,7 +119,13 @@ func parseEvent(text string) J {
 		panicked, pmsg = try(func() { msgs, errs, warns = sml.Parse(text) })
 		done <- true
 	}()
-	limit := 10*time.Second + time.Duration(len(text)/50000)*time.Second
+	// generous and quadratic in the input length: deeply nested lists take quadratic time (every list factory lists the
+	// variables of its whole subtree) - 23 s for 20 000 levels / 80 kB - and that is slow, not hung
+	kb := len(text)/1000 + 1
+	limit := 20*time.Second + time.Duration(kb*kb)*10*time.Millisecond
+	if limit > 600*time.Second {
+		limit = 600 * time.Second
+	}
 	hung := false
 	select {
 	case <-done:
